@@ -34,26 +34,30 @@ func (twoTokens) GetToken(ctx sdk.Context, denom string) (types.TokenI, error) {
 	return nil, errors.New("unknown token")
 }
 
-var rateTexts = []string{"1", "0.5", "2.5", "0.000000000000000001", "1000000"}
+var rateTexts = []string{"1", "0.5", "2.5", "0.000000000000000001", "1000000", "0"}
+
+const nRates = 6
 
 // sceneExchange: context X (one provider, price in gold) has a pending new-batch entry at the current height;
-// the end blocker runs. Oracle answers 0..4: a rate; 5: an error result; 6: an answer without a rate;
-// 7: no oracle registered.
+// the end blocker runs. Oracle answers 0..5: a rate; 6: an error result; 7: an answer without a rate;
+// 8: a rate with 19 decimals (the output schema admits it, sdk.NewDecFromStr does not); 9: no oracle registered.
 func sceneExchange() {
 	s := NewReqScene(ReqOpts{MaxProv: 1, OnlyState: 0, AllBound: true, NewBatch: true, Exchange: true})
 	k, ctx, id, pre := s.K, s.Ctx, s.ID, s.Pre
 	bc, timeout := pre.BatchCounter, pre.Timeout
 	capAmt := pre.ServiceFeeCap.AmountOf(Denom)
-	answer := vf.Choice("oracle", 8)
-	if answer < 7 {
+	answer := vf.Choice("oracle", nRates+4)
+	if answer < nRates+3 {
 		_ = k.RegisterModuleService(types.RegisterModuleName, &types.ModuleService{ServiceName: types.OraclePriceServiceName,
 			Provider: types.OraclePriceServiceProvider,
 			ReuquestService: func(ctx sdk.Context, input string) (string, string) {
 				switch {
-				case answer < 5:
+				case answer < nRates:
 					return ResultOK, `{"header":{},"body":{"rate":"` + rateTexts[answer] + `"}}`
-				case answer == 5:
+				case answer == nRates:
 					return `{"code":500,"message":"no such pair"}`, ""
+				case answer == nRates+2:
+					return ResultOK, `{"header":{},"body":{"rate":"0.1234567890123456789"}}`
 				}
 				return ResultOK, `{"header":{},"body":{}}`
 			}})
@@ -72,7 +76,7 @@ func sceneExchange() {
 	nreq, _, nact := countRecords(k, ctx, id, bc+1)
 	chk("C09", immutableCtx(pre, post), "ctx-immutable-fields")
 
-	if answer >= 5 {
+	if answer >= nRates {
 		// no exchange rate: nothing can be issued or charged; the context is still running, so it must still
 		// have its one pending event, and not in a block that has already ended
 		vf.Reach("no-rate")
